@@ -48,7 +48,7 @@ FUNC_PROPS = {
     "drain_try_lock": {"C01", "C02", "C04", "C06"}, "drain_try_unlock": {"C01", "C06"},
     "try_acquire_barrier_sync_and_suspend": {"C02", "C04", "C05"}, "reserve_sync_width": {"C04"},
     "try_acquire_async": {"C04", "C01"}, "try_upgrade_full_width": {"C04"}, "try_inactive_suspend": {"C06"},
-    "merge_qos": {"C01"}, "pred": {"C01", "C02", "C04", "C05", "C06"}, "adjust_owned": {"C04"},
+    "merge_qos": {"C01"}, "pred": {"C01", "C02", "C04", "C05", "C06"}, "adjust_owned": {"C04", "C06", "C01"},
 }
 
 
@@ -125,7 +125,7 @@ def dqstate_conformance(v, prop):
         r = tlc("DQStateConf.tla", cfg, workers=1, timeout=600, env={"ROWS": rows}, metaname="%s_dqconf%d" % (prop, w))
         m = re.search(r'<<"CONFROWS", (\d+), (\d+)>>', r.out)
         if r.violated or not m:
-            mm = re.search(r'<<"MISMATCH", (\d+), (.*)', r.out)
+            mm = re.search(r'<<\s*"MISMATCH",\s*(\d+),', r.out)   # TLC wraps long tuples over several lines
             if not mm:
                 raise Broken("DQStateConf failed (rc=%s): %s" % (r.rc, r.out[-2000:]))
             k = int(mm.group(1))
